@@ -61,7 +61,7 @@ def crashy(res):
 class Check:
     id = PROP
     level = "fault_enumeration"
-    cases = {"quick": 900, "thorough": 30000}
+    cases = {"quick": 2000, "thorough": 20000}
     rule = ("case = (random tree, query, environment E) + fault sequence. A: 1-3 directories made unlistable (opendir EACCES/ENOENT/ENOTDIR[/EIO/EMFILE], realpath error, "
             "vanish or replaced-by-file race after being listed or between canonicalize and open, mid-stream readdir error), for streamed/ordered/aggregated queries, bfs/dfs, "
             "each with a fault-free control run of the same world and E. B: a file's open fails (EACCES/EIO/ELOOP/ENOENT-by-race) or read fails at byte offset 0/middle/last, "
